@@ -2,6 +2,7 @@ package main
 
 import (
 	"bufio"
+	"bytes"
 	"fmt"
 	"os"
 	"sort"
@@ -9,6 +10,7 @@ import (
 
 	"github.com/angelsolaorbaiceta/inkfem/build"
 	iodef "github.com/angelsolaorbaiceta/inkfem/io/def"
+	iopre "github.com/angelsolaorbaiceta/inkfem/io/pre"
 	"github.com/angelsolaorbaiceta/inkfem/math"
 	"github.com/angelsolaorbaiceta/inkfem/preprocess"
 	"github.com/angelsolaorbaiceta/inkfem/process"
@@ -26,6 +28,7 @@ type pipeCase struct {
 	Repeat     int    // number of StructureModel calls on the same parsed structure (>= 1)
 	Solve      bool
 	Assemble   bool
+	ViaPre     bool // write the preprocessed structure as .inkfempre text, read it back, continue from that
 	ScratchDir string
 }
 
@@ -104,6 +107,7 @@ type jPipeOut struct {
 	Sol        []jSolBar
 	Reactions  map[string][3]string
 	MaxError   string
+	PreText    string `json:",omitempty"`
 }
 
 func init() { commands["pipeline"] = cmdPipeline }
@@ -220,6 +224,21 @@ func runPipe(c pipeCase) (out jPipeOut) {
 		}
 	}
 	out.BarsAfter = dumpBars(str)
+
+	if c.ViaPre {
+		var jp jPre
+		guard(&jp.Panic, func() {
+			var buf bytes.Buffer
+			iopre.Write(pre, &buf)
+			out.PreText = buf.String()
+			pre = iopre.Read(strings.NewReader(out.PreText))
+			jp = dumpPre(pre)
+		})
+		out.Pre = append(out.Pre, jp)
+		if jp.Panic != "" {
+			return
+		}
+	}
 
 	if c.Assemble || c.Solve {
 		guard(&out.SysPanic, func() {
